@@ -1,7 +1,8 @@
 #!/bin/bash
-# setup: build the Lean model, the driver and every property's proofs (offline; nothing fetched)
+# setup: build the Lean model, the driver and every property's proofs, then warm the harness cache
+# (offline; nothing fetched)
 set -e
 cd "$(dirname "$0")/.."
 python3 tools/gen_dq.py /repo
-cd lean
-lake build smoothdrv SmoothProofs SmoothProps 2>&1 | tail -5
+( cd lean && lake build smoothdrv SmoothProofs SmoothProps 2>&1 | tail -5 )
+python3 tools/prebuild.py || true
